@@ -107,6 +107,48 @@ Theorem C15_nested_bounds_in_layer_frame : forall maxb ib o,
 Proof. exact nested_bounds_in_layer_frame. Qed.
 Print Assumptions C15_nested_bounds_in_layer_frame.
 
+
+(* ================================================================== extension round 4: nesting to ANY depth *)
+(* mask on mask on mask ... (mask.rs::apply recursion): the factor stays in [0,1] *)
+Theorem C15_mask_tree_factor_unit : forall m, wf_mask m -> unit_q (eval_mask m).
+Proof. exact eval_mask_unit. Qed.
+Print Assumptions C15_mask_tree_factor_unit.
+
+(* a mask with a mask is the product: never more than either lets through, never more than its own rectangle *)
+Theorem C15_nested_mask_intersection : forall c r k, unit_q c -> unit_q r -> wf_mask k ->
+  eval_mask (MMask c r (Some k)) == eval_mask (MMask c r None) * eval_mask k /\
+  eval_mask (MMask c r (Some k)) <= eval_mask k /\
+  eval_mask (MMask c r (Some k)) <= eval_mask (MMask c r None) /\
+  eval_mask (MMask c r (Some k)) <= r.
+Proof. exact nested_mask_intersection. Qed.
+Print Assumptions C15_nested_mask_intersection.
+
+(* outside the mask rectangle of ANY level of the chain the target becomes transparent *)
+Theorem C15_outside_any_mask_level_transparent : forall m, m_outside m -> eval_mask m == 0.
+Proof. exact outside_any_mask_level. Qed.
+Print Assumptions C15_outside_any_mask_level_transparent.
+
+(* any stack of group effects (clip factor, mask factor, opacity of a group, of its parent, of its grandparent ...) only
+   removes paint, and every further level removes at least as much *)
+Theorem C15_factor_stack_never_increases : forall fs gs p, 0 <= p -> Forall unit_q fs -> Forall unit_q gs ->
+  0 <= apply_factors p fs /\ apply_factors p fs <= p /\ apply_factors p (fs ++ gs) <= apply_factors p fs.
+Proof.
+  intros fs gs p Hp Hf Hg. destruct (apply_factors_le fs p Hp Hf) as [A B].
+  split; [exact A|]. split; [exact B|]. apply apply_factors_prefix; assumption.
+Qed.
+Print Assumptions C15_factor_stack_never_increases.
+
+(* exact bytes (tiny-skia apply_mask + Mask::from_pixmap, luminance in binary32), mask chains of any depth, any mask
+   content pixel, any coverage of each mask rectangle: the target channel never grows ... *)
+Theorem C15_mask_chain_u8_never_increases : forall m c, umask_wf m -> is_byte c -> (0 <= umask_apply m c <= c)%Z.
+Proof. intros m c. exact (umask_apply_le m c). Qed.
+Print Assumptions C15_mask_chain_u8_never_increases.
+
+(* ... and is exactly 0 where the mask rectangle of some level does not cover the pixel *)
+Theorem C15_mask_chain_u8_outside_zero : forall m c, umask_wf m -> is_byte c -> umask_outside m -> umask_apply m c = 0%Z.
+Proof. intros m c. exact (umask_outside_zero m c). Qed.
+Print Assumptions C15_mask_chain_u8_outside_zero.
+
 (* non-vacuity *)
 Example C15_ex_half : clip_factor [(false, 1 # 2); (false, 1 # 2)] 1 == 3 # 4.
 Proof. vm_compute. reflexivity. Qed.
@@ -115,4 +157,9 @@ Example C15_ex_tree :
   eval_clip (CClip [CGroup [CPath 1] (CClip [CPath 1] None); CPath 1] None) == 1.
 Proof. vm_compute. repeat split; reflexivity. Qed.
 Example C15_ex_scale : scale_u8 200 128 = 100%Z /\ lum_mask_u8 128 128 128 255 = 128%Z /\ lum_mask_u8 100 50 25 200 = 59%Z.
+Proof. vm_compute. repeat split; reflexivity. Qed.
+Example C15_ex_mask_chain :
+  eval_mask (MMask (1 # 2) 1 (Some (MMask (1 # 2) 1 (Some (MMask 1 (1 # 2) None))))) == 1 # 8 /\
+  umask_apply (UMask true 128 128 128 255 255 (Some (UMask false 0 0 0 128 255 None))) 200 = 50%Z /\
+  umask_apply (UMask true 255 255 255 255 255 (Some (UMask false 0 0 0 255 0 None))) 200 = 0%Z.
 Proof. vm_compute. repeat split; reflexivity. Qed.
